@@ -377,6 +377,50 @@ pub fn run(rep: &mut Report, tier: Tier) {
         }
     });
     rep.absorb(t);
+    // deserializing *into an existing value*: `Deserialize::deserialize_in_place` (a provided,
+    // hidden method of the trait that an impl may override to reuse allocations; std's impls for
+    // Vec, arrays and tuples call it for their elements) must leave exactly what `deserialize`
+    // returns, whatever the place held before - every ordered pair of duplicate-free values of
+    // at most 3 nodes, bare and inside a Vec
+    {
+        use serde::Deserialize;
+        let small: Vec<RV> = Gen::new(&[RV::Null, RV::Bool(true), RV::Bool(false), RV::num("0"), RV::num("1.5"), RV::str("a"), RV::str("a-string-longer-than-sixteen-bytes")], &["a", "b"], 3).up_to(3).into_iter().filter(|v| !v.has_duplicate_keys()).collect();
+        let ns = small.len();
+        let idx: Vec<usize> = (0..ns).collect();
+        let t = explore::par_tally(idx, |i, t| {
+            let old = bridge::to_value(&small[i]);
+            for new_rv in &small {
+                t.evals += 1;
+                let new = bridge::to_value(new_rv);
+                let r = explore::guard(|| {
+                    let want = from_value::<Value>(new.clone()).ok();
+                    let mut place = old.clone();
+                    let ok = Value::deserialize_in_place(new.clone(), &mut place).is_ok();
+                    let mut places = vec![old.clone(), old.clone(), Value::Null];
+                    let news = Value::Array(vec![new.clone(), new.clone()]);
+                    let ok2 = Vec::<Value>::deserialize_in_place(news, &mut places).is_ok();
+                    (want, ok, place, ok2, places)
+                });
+                match r {
+                    Ok((want, ok, place, ok2, places)) => {
+                        if want.is_some() != ok || (ok && Some(&place) != want.as_ref()) {
+                            t.violation("", format!("deserialize_in_place of {} into a place holding {} leaves {}, deserialize gives {:?}", new_rv.show(), small[i].show(), place, want.as_ref().map(|w| w.to_string())), json!({"kind": "in-place", "old": small[i].show(), "new": new_rv.show()}));
+                        }
+                        if let Some(w) = &want {
+                            if !ok2 || places != vec![w.clone(), w.clone()] {
+                                t.violation("", format!("Vec::<Value>::deserialize_in_place of two copies of {} into places holding {} leaves {:?}", new_rv.show(), small[i].show(), places.iter().map(|p| p.to_string()).collect::<Vec<_>>()), json!({"kind": "in-place", "old": small[i].show(), "new": new_rv.show()}));
+                            }
+                        }
+                    }
+                    Err(p) => t.violation("", format!("deserialize_in_place panicked: {p}"), json!({"kind": "in-place", "old": small[i].show(), "new": new_rv.show()})),
+                }
+            }
+            t.nontrivial(&("in-place", i));
+            t.outcome("deserialize_in_place over every pair");
+        });
+        rep.bounds["in_place"] = json!({"values": ns, "ordered_pairs": ns * ns});
+        rep.absorb(t);
+    }
     // pumped linear families
     let all = refmodel::pump::all(tier == Tier::Thorough);
     let np = all.len();
